@@ -18,41 +18,66 @@ theorem tag_lt (dt : DataType) : dt.tag < 4294967296 := by cases dt <;> simp onl
 theorem major_lt : versionMajor < 4294967296 := by show (0 : Nat) < 4294967296; omega
 theorem minor_lt : versionMinor < 4294967296 := by show (1 : Nat) < 4294967296; omega
 
+/-- `readHeader` with the expected numbers as parameters -/
+def readHeaderG (M m t : Nat) (bs : Bytes) : Res Unit :=
+  (nat32.dec bs).bind fun major r => (nat32.dec r).bind fun minor r' =>
+    if major ≠ M ∨ minor ≠ m then .error .invalid
+    else (nat32.dec r').bind fun observed r'' =>
+      if observed ≠ t then .error .invalid else .ok () r''
+
+theorem readHeader_eq (dt : DataType) : readHeader dt = readHeaderG versionMajor versionMinor dt.tag := rfl
+
+theorem readHeaderG_roundtrip (M m t : Nat) (hM : M < 4294967296) (hm : m < 4294967296) (ht : t < 4294967296)
+    (rest : Bytes) : readHeaderG M m t (nat32.enc M ++ nat32.enc m ++ nat32.enc t ++ rest) = .ok () rest := by
+  simp only [readHeaderG, List.append_assoc]
+  rw [lawful_nat32.roundtrip M _ hM]; simp only [Res.bind_ok]
+  rw [lawful_nat32.roundtrip m _ hm]; simp only [Res.bind_ok]
+  rw [lawful_nat32.roundtrip t _ ht]; simp
+
+theorem readHeaderG_prefix (M m t : Nat) (hM : M < 4294967296) (hm : m < 4294967296) (ht : t < 4294967296)
+    (p q : Bytes) (he : p ++ q = nat32.enc M ++ nat32.enc m ++ nat32.enc t) (hq : q ≠ []) :
+    readHeaderG M m t p = .error .eof := by
+  simp only [List.append_assoc] at he
+  simp only [readHeaderG]
+  refine seq_prefix lawful_nat32 hM he hq _ (fun c1 h1 => ?_)
+  refine seq_prefix lawful_nat32 hm h1 hq _ (fun c2 h2 => ?_)
+  simp only [ne_eq, not_true_eq_false, or_self, ↓reduceIte]
+  have h2' : c2 ++ q = nat32.enc t ++ [] := by simpa using h2
+  exact seq_prefix lawful_nat32 ht h2' hq _ (fun c3 h3 => by simp at h3; exact absurd h3.2 hq)
+
 theorem lawful_headerC (dt : DataType) : Lawful (headerC dt) (fun _ => True) where
   roundtrip _ rest _ := by
-    simp only [headerC, writeHeader, readHeader, List.append_assoc]
-    rw [lawful_nat32.roundtrip _ _ major_lt]
-    simp only [Res.bind_ok]
-    rw [lawful_nat32.roundtrip _ _ minor_lt]
-    simp only [Res.bind_ok]
-    rw [lawful_nat32.roundtrip _ _ (tag_lt dt)]
-    simp
+    show readHeader dt (writeHeader dt ++ rest) = _
+    rw [readHeader_eq]
+    exact readHeaderG_roundtrip _ _ _ major_lt minor_lt (tag_lt dt) rest
   prefixFree _ p q _ he hq := by
-    simp only [headerC, writeHeader, List.append_assoc] at he
-    simp only [headerC, readHeader]
-    refine seq_prefix lawful_nat32 major_lt he hq _ (fun c1 h1 => ?_)
-    refine seq_prefix lawful_nat32 minor_lt h1 hq _ (fun c2 h2 => ?_)
-    simp only [ne_eq, not_true_eq_false, or_self, ↓reduceIte]
-    have h2' : c2 ++ q = nat32.enc dt.tag ++ [] := by simpa using h2
-    exact seq_prefix lawful_nat32 (tag_lt dt) h2' hq _ (fun c3 h3 => by simp at h3; exact absurd h3.2 hq)
+    show readHeader dt p = _
+    rw [readHeader_eq]
+    exact readHeaderG_prefix _ _ _ major_lt minor_lt (tag_lt dt) p q he hq
 
 /-- a header that is not (0, 1, expected tag) is rejected, whatever follows -/
-theorem readHeader_bad (dt : DataType) (major minor tag : Nat) (rest : Bytes)
+theorem readHeaderG_bad (M m t major minor tag : Nat) (rest : Bytes)
     (hM : major < 4294967296) (hm : minor < 4294967296) (ht : tag < 4294967296)
-    (hbad : major ≠ versionMajor ∨ minor ≠ versionMinor ∨ tag ≠ dt.tag) :
-    readHeader dt (nat32.enc major ++ nat32.enc minor ++ nat32.enc tag ++ rest) = .error .invalid := by
-  simp only [readHeader, List.append_assoc]
-  rw [lawful_nat32.roundtrip _ _ hM]; simp only [Res.bind_ok]
-  rw [lawful_nat32.roundtrip _ _ hm]; simp only [Res.bind_ok]
-  by_cases h1 : major ≠ versionMajor ∨ minor ≠ versionMinor
+    (hbad : major ≠ M ∨ minor ≠ m ∨ tag ≠ t) :
+    readHeaderG M m t (nat32.enc major ++ nat32.enc minor ++ nat32.enc tag ++ rest) = .error .invalid := by
+  simp only [readHeaderG, List.append_assoc]
+  rw [lawful_nat32.roundtrip major _ hM]; simp only [Res.bind_ok]
+  rw [lawful_nat32.roundtrip minor _ hm]; simp only [Res.bind_ok]
+  by_cases h1 : major ≠ M ∨ minor ≠ m
   · simp [h1]
-  · rw [if_neg h1, lawful_nat32.roundtrip _ _ ht]
-    have : tag ≠ dt.tag := by
+  · rw [if_neg h1, lawful_nat32.roundtrip tag _ ht]
+    have : tag ≠ t := by
       rcases hbad with h | h | h
       · exact absurd (Or.inl h) h1
       · exact absurd (Or.inr h) h1
       · exact h
     simp [this]
+
+theorem readHeader_bad (dt : DataType) (major minor tag : Nat) (rest : Bytes)
+    (hM : major < 4294967296) (hm : minor < 4294967296) (ht : tag < 4294967296)
+    (hbad : major ≠ versionMajor ∨ minor ≠ versionMinor ∨ tag ≠ dt.tag) :
+    readHeader dt (nat32.enc major ++ nat32.enc minor ++ nat32.enc tag ++ rest) = .error .invalid := by
+  rw [readHeader_eq]; exact readHeaderG_bad _ _ _ major minor tag rest hM hm ht hbad
 
 /-! ### Shape -/
 
@@ -120,5 +145,79 @@ theorem lawful_tensorC : Lawful tensorC TensorOk where
 def StatOk (x : Bytes × Tensor) : Prop := x.1.length < 4294967296 ∧ TensorOk x.2
 
 theorem lawful_statC : Lawful statC StatOk := lawful_pair lawful_str lawful_tensorC
+
+theorem statC_enc (x : Bytes × Tensor) : statC.enc x = str.enc x.1 ++ tensorC.enc x.2 := rfl
+
+theorem readStats_roundtrip (ws : Bool) :
+    ∀ (l : List (Bytes × Tensor)) (rest : Bytes) (acc : List (Bytes × Tensor)), (∀ x ∈ l, StatOk x) →
+      readStats ws l.length (encList statC l ++ rest) acc = .ok (if ws then l.foldl emplace acc else acc) rest
+  | [], rest, acc, _ => by cases ws <;> simp [readStats, encList]
+  | x :: xs, rest, acc, h => by
+    have hx : StatOk x := h x (by simp)
+    have hxs : ∀ y ∈ xs, StatOk y := fun y hy => h y (by simp [hy])
+    have ih := readStats_roundtrip ws xs rest (if ws then emplace acc x else acc) hxs
+    simp only [encList] at ih
+    simp only [encList, List.flatMap_cons, List.length_cons, readStats, statC_enc, List.append_assoc]
+    rw [lawful_str.roundtrip x.1 _ hx.1]; simp only [Res.bind_ok]
+    rw [show readTensor = tensorC.dec from rfl, lawful_tensorC.roundtrip x.2 _ hx.2]
+    simp only [Res.bind_ok]
+    rw [ih]; cases ws <;> simp
+
+theorem readStats_prefix (ws : Bool) :
+    ∀ (l : List (Bytes × Tensor)) (p q : Bytes) (acc : List (Bytes × Tensor)), (∀ x ∈ l, StatOk x) →
+      p ++ q = encList statC l → q ≠ [] → readStats ws l.length p acc = .error .eof
+  | [], p, q, acc, _, he, hq => by simp [encList] at he; exact absurd he.2 hq
+  | x :: xs, p, q, acc, h, he, hq => by
+    have hx : StatOk x := h x (by simp)
+    have hxs : ∀ y ∈ xs, StatOk y := fun y hy => h y (by simp [hy])
+    simp only [encList, List.flatMap_cons, statC_enc, List.append_assoc] at he
+    simp only [List.length_cons, readStats]
+    refine seq_prefix lawful_str (v := x.1) hx.1 he hq _ (fun c1 h1 => ?_)
+    show (tensorC.dec c1).bind _ = _
+    refine seq_prefix lawful_tensorC (v := x.2) hx.2 h1 hq _ (fun c2 h2 => ?_)
+    exact readStats_prefix ws xs c2 q _ hxs h2 hq
+
+/-- A parameter `save` can write and `load` accepts: batch 1, distinct statistics names. -/
+def ParamOk (p : Param) : Prop :=
+  TensorOk p.value ∧ p.value.shape.hasBatch = false ∧ p.stats.length < 4294967296 ∧
+    (∀ x ∈ p.stats, StatOk x) ∧ (p.stats.map Prod.fst).Nodup
+
+/-- what `load` makes of a saved parameter: value and shape from the file, zero gradient,
+the given device, the statistics if they were saved and asked for -/
+def loaded (p : Param) (stats : Bool) (dev : Dev) : Param :=
+  ⟨p.value.shape, dev, p.value, Tensor.zeros p.value.shape, if stats then p.stats else []⟩
+
+theorem loadInner_saveInner (p : Param) (wsS wsL : Bool) (dev : Dev) (rest : Bytes) (h : ParamOk p) :
+    loadInner (saveInner p wsS ++ rest) wsL dev = .ok (loaded p (wsS && wsL) dev) rest := by
+  obtain ⟨hv, hb, hn, hst, hnd⟩ := h
+  simp only [loadInner, saveInner, List.append_assoc]
+  rw [show writeTensor p.value = tensorC.enc p.value from rfl, show readTensor = tensorC.dec from rfl,
+    lawful_tensorC.roundtrip p.value _ hv]
+  simp only [Res.bind_ok]
+  cases wsS
+  · have h0 : (0 : Nat) < 4294967296 := by omega
+    simp only [Bool.false_eq_true, ↓reduceIte]
+    rw [lawful_nat32.roundtrip _ _ h0]
+    simp [readStats, hb, loaded]
+  · simp only [↓reduceIte, List.append_assoc]
+    rw [lawful_nat32.roundtrip _ _ hn]; simp only [Res.bind_ok]
+    rw [readStats_roundtrip wsL p.stats rest [] hst]
+    have he : p.stats.foldl emplace [] = p.stats := emplaceAll_nodup p.stats hnd
+    cases wsL <;> simp [hb, loaded, he]
+
+theorem loadInner_prefix (p : Param) (wsS wsL : Bool) (dev : Dev) (pre q : Bytes) (h : ParamOk p)
+    (he : pre ++ q = saveInner p wsS) (hq : q ≠ []) : loadInner pre wsL dev = .error .eof := by
+  obtain ⟨hv, hb, hn, hst, hnd⟩ := h
+  simp only [saveInner] at he
+  simp only [loadInner]
+  refine seq_prefix lawful_tensorC (v := p.value) hv he hq _ (fun c1 h1 => ?_)
+  cases wsS
+  · have h0 : (0 : Nat) < 4294967296 := by omega
+    simp only [Bool.false_eq_true, ↓reduceIte] at h1
+    have h1' : c1 ++ q = nat32.enc 0 ++ [] := by simpa using h1
+    exact seq_prefix lawful_nat32 h0 h1' hq _ (fun c2 h2 => by simp at h2; exact absurd h2.2 hq)
+  · simp only [↓reduceIte] at h1
+    refine seq_prefix lawful_nat32 hn h1 hq _ (fun c2 h2 => ?_)
+    rw [readStats_prefix wsL p.stats c2 q [] hst h2 hq]; rfl
 
 end Primitiv.Files
